@@ -218,6 +218,7 @@ class Result:
         self.known = {}           # finding id -> count
         self.hist = {}
         self.errors = []
+        self.leanchecker = []
 
 def write_replay(pid, seed, kind, lines):
     os.makedirs(os.path.join(VERIF, 'replays'), exist_ok=True)
@@ -239,10 +240,13 @@ def corpus_cases(pid, stream):
 
 def exec_stream(pid, st, cases):
     cmd = [bin_path(st.bin)]
+    env = None
+    if getattr(st, 'env', None):
+        env = dict(os.environ); env.update(st.env)
     if st.per_process:
-        impl, err = run_per_process(cmd, cases)
+        impl, err = run_per_process(cmd, cases, env=env)
     else:
-        impl, err = run_lines(cmd, cases)
+        impl, err = run_lines(cmd, cases, env=env)
     return impl, err
 
 def main(argv):
@@ -311,6 +315,14 @@ def run_check(pid, mod, tier, seed, replay):
             thms, aout = audit(P['namespace'], P['lean_module'])
             if thms is None:
                 broken.append('axiom audit failed: ' + aout[-800:]); thms = []
+            if tier == 'thorough':
+                # independent re-check of the compiled theorem module (and the model/lemma modules it is built on)
+                mods = [P['lean_module']] + list(P.get('leanchecker_modules', []))
+                for m in mods:
+                    rc, out = run(['lake', 'env', 'leanchecker', m], cwd=LEAN)
+                    res.leanchecker.append({'module': m, 'ok': rc == 0})
+                    if rc != 0:
+                        broken.append('leanchecker rejects %s: %s' % (m, out[-600:]))
         cb_ok, cb_out = True, ''
         if hasattr(mod, 'prebuild'):
             # generated sources (compiled corpora) are written before anything is compiled
@@ -418,7 +430,7 @@ def run_check(pid, mod, tier, seed, replay):
                     res.known[fid] = res.known.get(fid, 0) + 1
                     continue
                 res.spec_failures.append((st.name, c, a2, why))
-            if a2 != m2:
+            if not (st.model_match(c, m2, a2) if getattr(st, 'model_match', None) else a2 == m2):
                 res.disagreements.append((st.name, c, a2, m2))
     # ---- property-specific extra phase (e.g. compiled corpora)
     if hasattr(mod, 'extra'):
@@ -520,7 +532,10 @@ def _fails(pid, stream, case, against):
     r = stream.canon(ref[0])
     if r in ('bad-op', 'bad-case'):
         return None
-    ok = (stream.spec_match(r, a) if (against == 'spec' and getattr(stream, 'spec_match', None)) else r == a)
+    if against == 'model' and getattr(stream, 'model_match', None):
+        ok = stream.model_match(case, r, a)
+    else:
+        ok = (stream.spec_match(r, a) if (against == 'spec' and getattr(stream, 'spec_match', None)) else r == a)
     return None if ok else (a, r)
 
 def shrink_history(pid, stream, case, against='model', budget=150):
@@ -531,7 +546,7 @@ def shrink_history(pid, stream, case, against='model', budget=150):
         head = [parts[0]]; parts = parts[1:]
     best = _fails(pid, stream, case, against)
     if best is None:
-        return case, '?', '?'
+        raise RuntimeError('failure did not reproduce on re-run')
     n = 2
     while len(parts) >= 2 and budget > 0:
         chunk = max(1, len(parts) // n)
@@ -566,6 +581,7 @@ def finish(pid, tier, seed, t0, P, thms, res, broken, known_printed, nvio):
             'checker_cmd': 'cd /verif/lean && lake build %s && lake env lean /verif/.build/audit_%s.lean  (axiom audit; leanchecker in thorough tier)' % (P['lean_module'], P['namespace']),
             'trusted_base': ['Lean 4.33 kernel', 'axioms used: ' + (', '.join(axioms) or 'none')] + P.get('trusted_base', []),
             'theorems': [n for n, _ in thms],
+            'leanchecker': res.leanchecker,
             'evaluations': res.evaluations,
             'distinct_nontrivial': len(res.nontrivial),
             'rule': P.get('rule', ''),
